@@ -14,7 +14,8 @@ RULE = ("history: the C01 histories with fingerprint() calls interleaved (after 
         "cells between columns of 2-3 column tables, transposition of square tables, random row / region / whole-table "
         "assignments): the table fingerprint must change iff the cell hashes changed. non-trivial = a fingerprint() was observed after an in-place write to an object "
         "that had been fingerprinted before (history) / the written value differs in hash (sens)")
-ASSUMPTIONS = ["elements are scalars (no nested lists/sets as elements); names are not part of a fingerprint",
+ASSUMPTIONS = ["elements are scalars, or lists / tuples / sets of scalars and further lists / tuples (family `container`; Python's sorted() "
+               "orders a set's items; dicts and other unhashable objects as elements are not judged); names are not part of a fingerprint",
                "Python's hash() of the element values is the oracle for element hashes (str hashes are per-process)"]
 BUDGET_S = {"quick": 30, "thorough": 420}
 LEVEL_TEXT = ("Proof: (1) in the heap model, after ANY operation sequence every cached fingerprint equals the rolling hash of the "
@@ -79,6 +80,12 @@ def generate(rng, tier):
         base = [rng.choice([1, 0, 2, -1, "a", None]) for _ in range(n)]
         yield {"fam": "nested", "vals": base, "i": rng.randrange(n), "new": rng.choice([5, 7, "b", None, 2.5]),
                "other": [rng.choice([7, 8]) for _ in range(n)], "path": rng.choice(["view", "cell", "none"])}
+    # container-valued elements: lists / tuples (nested) and sets of scalars inside an object vector
+    for _ in range(400 if tier == "quick" else 8000):
+        n = rng.randint(1, 4)
+        elems = ["k"] + [_rand_tree(rng, 2) for _ in range(n)]
+        i = rng.randrange(1, n + 1)
+        yield {"fam": "container", "elems": elems, "i": i, "new": _mutate_tree(rng, elems[i])}
     # table-level writes that change cells of several columns at once: exchanges between columns (same row, anti-diagonal,
     # diagonal), transposition of a square table, row / region / whole-table assignment
     for k in (2, 3):
@@ -97,6 +104,91 @@ def generate(rng, tier):
         yield {"fam": "tsens", "cols": base, "how": rng.choice(["whole", "rows", "region"]), "new": new}
     for i in range(4000 if tier == "quick" else 24000):
         yield {"fam": "history", "seed": rng.randrange(1 << 30), "nsteps": 12 if tier == "quick" or i % 3 else 36}
+
+
+def _rand_tree(rng, depth):
+    r = rng.random()
+    if depth == 0 or r < 0.25:
+        return rng.choice([0, 1, 2, 8, -1, 16, None, "a", 2.5])
+    if r < 0.5:
+        return {"s": rng.sample([0, 8, 16, 1, 2, 3, 24, -1], rng.randint(0, 4))}
+    return {rng.choice("lt"): [_rand_tree(rng, depth - 1) for _ in range(rng.randint(0, 3))]}
+
+
+def _mutate_tree(rng, t):
+    """an element that differs from `t` somewhere (a leaf changed, an item added or dropped) — or, rarely, equals it"""
+    if not isinstance(t, dict):
+        return rng.choice([5, 7, "b", None, {"l": [t]}, {"t": [1, t]}])
+    (k, items), = t.items()
+    items = list(items)
+    r = rng.random()
+    if k == "s":
+        pool = [x for x in [0, 8, 16, 1, 2, 3, 24, -1, 40] if x not in items]
+        if r < 0.5 or not items:
+            items.insert(rng.randrange(len(items) + 1), rng.choice(pool))
+        elif r < 0.8:
+            items.pop(rng.randrange(len(items)))
+        else:
+            items = items[::-1]            # the same set, inserted in another order
+        return {"s": items}
+    if not items or r < 0.2:
+        return {k: items + [rng.choice([0, 1, 9])]}
+    j = rng.randrange(len(items))
+    if r < 0.8:
+        items[j] = _mutate_tree(rng, items[j])
+    elif r < 0.9 and len(items) > 1:
+        items[j], items[j - 1] = items[j - 1], items[j]
+    else:
+        return {"l" if k == "t" else "t": items}      # a list for a tuple with the same items: another value
+    return {k: items}
+
+
+def _build_tree(t, rev=False):
+    if not isinstance(t, dict):
+        return t
+    (k, items), = t.items()
+    if k == "s":
+        out = set()
+        for x in (items[::-1] if rev else items):
+            out.add(x)
+        return out
+    xs = [_build_tree(x, rev) for x in items]
+    return xs if k == "l" else tuple(xs)
+
+
+def _wire_tree(t):
+    if not isinstance(t, dict):
+        return hashes([t])[0]
+    (k, items), = t.items()
+    if k == "s":
+        return {"k": 1, "e": [hashes([x])[0] for x in sorted(set(items))]}
+    return {"k": 2 if k == "t" else 3, "e": [_wire_tree(x) for x in items]}
+
+
+def _container(spec):
+    from serif import Vector
+    elems, i = spec["elems"], spec["i"]
+    with warnings.catch_warnings():
+        warnings.simplefilter("ignore")
+        try:
+            v = Vector([_build_tree(t) for t in elems])
+            twin = Vector([_build_tree(t, True) for t in elems])
+            if type(v) is not Vector or len(v) != len(elems):
+                return {"skip": "not a plain vector"}
+            vb = v.fingerprint()
+            again = v.fingerprint()
+            tw = twin.fingerprint()
+            v[i] = _build_tree(spec["new"])
+            if len(v) != len(elems):
+                return {"skip": "the write changed the length"}
+            va = v.fingerprint()
+            elems2 = list(elems)
+            elems2[i] = spec["new"]
+            rebuilt = Vector([_build_tree(t, True) for t in elems2]).fingerprint()
+        except Exception as e:
+            return {"skip": "refused: " + type(e).__name__}
+    return {"fam": "container", "case": {"elems": [_wire_tree(t) for t in elems], "elems2": [_wire_tree(t) for t in elems2]},
+            "impl": {"v_before": vb, "v_again": again, "v_twin": tw, "v_after": va, "v_rebuilt": rebuilt}}
 
 
 def _nested(spec):
@@ -170,6 +262,8 @@ def execute(spec):
         return _sens(spec)
     if spec["fam"] == "nested":
         return _nested(spec)
+    if spec["fam"] == "container":
+        return _container(spec)
     return _history(spec)
 
 
@@ -297,6 +391,8 @@ def nontrivial(spec, wire):
         return wire["case"]["hs"] != wire["case"]["hs2"]
     if spec["fam"] == "sens":
         return wire["case"]["hs"] != wire["case"]["hs2"]
+    if spec["fam"] == "container":
+        return wire["case"]["elems"] != wire["case"]["elems2"] and any(isinstance(e, dict) for e in wire["case"]["elems"])
     return wire["impl"]["stale_reads"] >= 1
 
 
@@ -307,6 +403,9 @@ def histogram(spec, wire):
         return ["nested:" + spec["path"]]
     if spec["fam"] == "sens":
         return ["sens:" + spec["path"], "sens:hash-changed" if wire["case"]["hs"] != wire["case"]["hs2"] else "sens:hash-equal"]
+    if spec["fam"] == "container":
+        kinds = sorted({next(iter(t)) if isinstance(t, dict) else "scalar" for t in spec["elems"][1:]})
+        return ["container:" + "+".join(kinds), "container:changed" if wire["case"]["elems"] != wire["case"]["elems2"] else "container:equal"]
     out = []
     for s in wire["case"]["steps"]:
         out.append("op:" + s["desc"]["op"])
@@ -314,7 +413,7 @@ def histogram(spec, wire):
 
 
 def shrink(spec):
-    if spec["fam"] in ("sens", "nested", "tsens"):
+    if spec["fam"] in ("sens", "nested", "tsens", "container"):
         return
     if "steps" not in spec:
         w = _history(spec)
@@ -335,6 +434,10 @@ def snippet(spec):
     if spec["fam"] == "nested":
         return (f"from serif import Table\nouter = Table([Table({{'a': {spec['vals']!r}}}), Table({{'c': {spec['other']!r}}})])\n"
                 f"f0 = outer.fingerprint(); outer.cols()[0].a[{spec['i']}] = {spec['new']!r}; print(f0, outer.fingerprint())")
+    if spec["fam"] == "container":
+        return ("from serif import Vector\n"
+                f"v = Vector({[_build_tree(t) for t in spec['elems']]!r}); f0 = v.fingerprint()\n"
+                f"v[{spec['i']}] = {_build_tree(spec['new'])!r}; print(f0, v.fingerprint())  # sets: also try another insertion order")
     if spec["fam"] == "sens":
         return ("from serif import Vector, Table\n"
                 f"v = Vector({spec['vals']!r}); f0 = v.fingerprint()\n"
